@@ -273,6 +273,13 @@ func run(id string, sc scen) runner.Result {
 				launch(name, func() error { return send(st, 5000) })
 			case "send-lock", "send-after":
 				launch(name, func() error { return send(st, 20) })
+			case "rawwrite-lock":
+				launch(name, func() error {
+					m := payload.Make(1, 0, 0, 7, 20)
+					return st.(interface {
+						RawWrite(drpcwire.Kind, []byte) error
+					}).RawWrite(drpcwire.KindMessage, m)
+				})
 			case "recv":
 				launch(name, func() error { var m []byte; return st.MsgRecv(&m, payload.Enc{}) })
 			case "close":
@@ -384,7 +391,7 @@ func run(id string, sc scen) runner.Result {
 			if !errors.Is(err, ctxErr) {
 				failf("%s was blocked inside the transport write (default cancel mode) and returned %q, want the context's error", o.name, rig.ErrStr(err))
 			}
-		case (o.name == "send-lock" || o.name == "send-after") && !sc.soft && !ownEndInFlight:
+		case (o.name == "send-lock" || o.name == "rawwrite-lock" || o.name == "send-after") && !sc.soft && !ownEndInFlight:
 			// a send blocked behind another goroutine's send is a blocked send as well
 			if !errors.Is(err, ctxErr) {
 				failf("%s was blocked behind another call's write (default cancel mode) and returned %q, want the context's error", o.name, rig.ErrStr(err))
@@ -907,8 +914,8 @@ func keyOf(sc scen, first string) string {
 
 func gen(tier string, seed uint64) []runner.Scenario {
 	var all []scen
-	clientOps := []string{"recv-held", "send-transport", "send-lock", "recv", "send-after", "close", "closesend", "flush", "newstream2", "newstream2x"}
-	serverOps := []string{"send-transport", "send-lock", "recv", "closesend", "senderror", "flush"}
+	clientOps := []string{"recv-held", "send-transport", "send-lock", "rawwrite-lock", "recv", "send-after", "close", "closesend", "flush", "newstream2", "newstream2x"}
+	serverOps := []string{"send-transport", "send-lock", "rawwrite-lock", "recv", "closesend", "senderror", "flush"}
 	for _, side := range []string{"client", "server"} {
 		base := clientOps
 		if side == "server" {
@@ -940,15 +947,18 @@ func gen(tier string, seed uint64) []runner.Scenario {
 							}
 							return false
 						}
-						if net == "flowing" && (has("send-transport") || has("send-lock") || has("flush")) && !has("recv") {
+						if net == "flowing" && (has("send-transport") || has("send-lock") || has("rawwrite-lock") || has("flush")) && !has("recv") {
 							continue // nothing would be blocked
 						}
-						if has("send-lock") && !has("send-transport") {
+						if (has("send-lock") || has("rawwrite-lock")) && !has("send-transport") {
+							continue
+						}
+						if has("send-lock") && has("rawwrite-lock") {
 							continue
 						}
 						// send-after: a send issued while the stream's first receive is inside the transport
 						// flushing the corked invoke, so the send is blocked behind the receive
-						if has("send-after") && !(has("recv") && point == "corked" && net != "flowing" && !has("send-transport") && !has("send-lock")) {
+						if has("send-after") && !(has("recv") && point == "corked" && net != "flowing" && !has("send-transport") && !has("send-lock") && !has("rawwrite-lock")) {
 							continue
 						}
 						if has("close") && has("closesend") && has("senderror") {
@@ -960,8 +970,8 @@ func gen(tier string, seed uint64) []runner.Scenario {
 						if has("newstream2") && has("newstream2x") {
 							continue
 						}
-						if point == "half" && (has("send-transport") || has("send-lock") || has("closesend")) {
-							continue // sends after a half-close fail immediately
+						if point == "half" && side == "client" && (has("send-transport") || has("send-lock") || has("rawwrite-lock") || has("closesend")) {
+							continue // sends after one's own half-close fail immediately (on the server side "half" means the peer has half-closed: sends are as valid as before)
 						}
 						all = append(all, scen{side: side, soft: soft, net: net, point: point, ops: ops})
 					}
